@@ -156,3 +156,48 @@ def simplify_ops_terms(plan, term_fields):
                     cand = dict(plan)
                     cand['ops'] = ops[:k] + [op[:f] + [s] + op[f + 1:]] + ops[k + 1:]
                     yield cand
+
+
+# ------------------------------------------------------------------------------------
+# depth faults: the interpreter raises RecursionError in the middle of an engine operation
+
+def deep_model_term(kind, n, bottom=('a', 'end')):
+    """a model term of depth n: a list of n atoms ending in `bottom`, or n nested w/1 functors around it"""
+    t = bottom
+    for _ in range(n):
+        t = ('f', '.', (('a', 'e'), t)) if kind == 'list' else ('f', 'w', (t,))
+    return t
+
+
+def frame_depth():
+    import sys
+    f = sys._getframe(1)
+    n = 0
+    while f is not None:
+        n += 1
+        f = f.f_back
+    return n
+
+
+class LowRecursionLimit:
+    """lowers the interpreter's recursion limit to `extra` frames above the caller for the duration of the
+    block (the harness's own code inside the block must stay shallow); always restores the old limit"""
+
+    def __init__(self, extra):
+        self.extra = extra
+
+    def __enter__(self):
+        import sys
+        self.old = sys.getrecursionlimit()
+        f = sys._getframe(1)
+        n = 0
+        while f is not None:
+            n += 1
+            f = f.f_back
+        sys.setrecursionlimit(n + self.extra)
+        return self
+
+    def __exit__(self, *a):
+        import sys
+        sys.setrecursionlimit(self.old)
+        return False
